@@ -1315,7 +1315,7 @@ def expand_accumulated_replace(tree: ast.Module, unchanged: T.Optional[T.Set[int
     return count
 
 
-def expand_bool_returns(tree: ast.Module, unchanged: T.Optional[T.Set[int]] = None) -> int:
+def expand_bool_returns(tree: ast.Module, unchanged: T.Optional[T.Set[int]] = None, only: T.Optional[T.Set[int]] = None) -> int:
     """In a changed function annotated `-> bool`, `return <condition>` (a comparison, and/or/not, or a flag local defined
     as one) becomes `if <condition>: return True` / `return False`: the exits the path-condition rules look for."""
     count = 0
@@ -1356,6 +1356,8 @@ def expand_bool_returns(tree: ast.Module, unchanged: T.Optional[T.Set[int]] = No
     for fd in [n for n in ast.walk(tree) if isinstance(n, (ast.FunctionDef, ast.AsyncFunctionDef))]:
         if unchanged and id(fd) in unchanged:
             continue
+        if only is not None and id(fd) not in only:
+            continue          # a helper the pinned tree does not have is expanded at its call sites as it stands
         if fd.returns is None or ast.unparse(fd.returns) != "bool":
             continue
         visit_block(fd.body, fd)
@@ -1654,7 +1656,7 @@ def normalise_program(trees: T.Dict[str, ast.Module]) -> T.Dict[str, int]:
             n_disp += expand_table_dispatch(t, same_disp)
             n_unrolled += unroll_literal_loops(t, same)
             n_splats += expand_kwargs_splats(t, same)
-            n_boolret += expand_bool_returns(t, same)
+            n_boolret += expand_bool_returns(t, same, {id(fd) for q, fd in _qualnames(t).items() if q in known})
             n_accrep += expand_accumulated_replace(t, same)
     LAST_RUN["dispatch_expanded"] = n_disp
     LAST_RUN["literal_loops_unrolled"] = n_unrolled
